@@ -297,6 +297,8 @@ def build_variable(eds, section, node_id, index, subindex=0):
             min_string = eds.get(section, "LowLimit")
             if var.data_type in datatypes.SIGNED_TYPES:
                 var.min = _signed_int_from_hex(min_string, _calc_bit_length(var.data_type))
+            elif var.data_type in datatypes.FLOAT_TYPES:
+                var.min = float(min_string)
             else:
                 var.min = int(min_string, 0)
         except ValueError:
@@ -306,6 +308,8 @@ def build_variable(eds, section, node_id, index, subindex=0):
             max_string = eds.get(section, "HighLimit")
             if var.data_type in datatypes.SIGNED_TYPES:
                 var.max = _signed_int_from_hex(max_string, _calc_bit_length(var.data_type))
+            elif var.data_type in datatypes.FLOAT_TYPES:
+                var.max = float(max_string)
             else:
                 var.max = int(max_string, 0)
         except ValueError:
